@@ -3,7 +3,6 @@
 // Contracts for govc (comment-only file; see /verif/DESIGN.md section 3).
 package arith
 
-//@ spec fn bitlen(Int) Int
 
 //@ func IsValidNatModN
 //@   nopanic[C05]
@@ -23,17 +22,17 @@ package arith
 //@ func IsInIntervalLEps
 //@   nopanic[C05]
 //@   modifies nothing
-//@   ensures result ==> n != nil && bitlen(n) <= 768
+//@   ensures result ==> n != nil && nbits(abs(natval(n))) <= 768
 
 //@ func IsInIntervalLPrimeEps
 //@   nopanic[C05]
 //@   modifies nothing
-//@   ensures result ==> n != nil && bitlen(n) <= 1792
+//@   ensures result ==> n != nil && nbits(abs(natval(n))) <= 1792
 
 //@ func IsInIntervalLEpsPlus1RootN
 //@   nopanic[C05]
 //@   modifies nothing
-//@   ensures result ==> n != nil && bitlen(n) <= 1793
+//@   ensures result ==> n != nil && nbits(abs(natval(n))) <= 1793
 
 //@ func ModulusFromN
 //@   nopanic[C05]
@@ -46,11 +45,13 @@ package arith
 //@   modifies nothing
 //@   allocates
 //@   requires n != nil && n.Modulus != nil && x != nil && e != nil
-//@   ensures result != nil
+//@   ensures result != nil && fresh(result)
+//@   summary natval(result) == modexp(natval(x), natval(e), natval(n.Modulus))
 
 //@ func (*Modulus).ExpI
 //@   nopanic[C05]
 //@   modifies nothing
 //@   allocates
 //@   requires n != nil && n.Modulus != nil && x != nil && e != nil
-//@   ensures result != nil
+//@   ensures result != nil && fresh(result)
+//@   summary natval(result) == modexp(natval(x), natval(e), natval(n.Modulus))
